@@ -66,7 +66,11 @@ class C03(Prop):
                     g[5] = [rng.randrange(256)]
             elif which == "payload_len":
                 g[5] = g[5] + [0]
-            cases.append({"kind": "eq:" + which, "f": f, "g": g})
+            # what has been looked at on the two objects before they are compared (lazily decoded data, a logged repr, the bytes)
+            # (equal-argument pairs are compared as built: equality after one of two equal frames has lazily materialised its
+            #  data or message is outside the statement, DESIGN section 6 C03 "Limits")
+            touch = "none" if which == "same" else rng.choice(["none", "none", "data-both", "repr-both", "data-a", "bytes-both", "data-both"])
+            cases.append({"kind": "eq:" + which, "f": f, "g": g, "touch": touch})
         for _ in range(n // 3):
             net = [[rng.randrange(256) for _ in range(4)] for _ in range(3)] + [rng.random() < 0.5] + \
                   [[rng.choice([0, rng.randrange(256)]) for _ in range(4)] for _ in range(3)] + \
@@ -131,7 +135,14 @@ class C03(Prop):
         a = FI.make_frame(*case["f"])
         b = FI.make_frame(*case["g"])
         a2 = FI.make_frame(*case["f"])
-        return {"eq": bool(a == b), "ne": bool(a != b), "self": bool(a == a), "same_args": bool(a == a2),
+        touch = case.get("touch", "none")
+        same_args = bool(a == a2)
+        for obj in ((a, b) if touch.endswith("both") else (a,) if touch == "data-a" else ()):
+            try:
+                _ = obj.data if touch.startswith("data") else repr(obj) if touch.startswith("repr") else obj.bytes
+            except Exception:  # noqa: BLE001  (a random payload need not decode; the comparison is still defined)
+                pass
+        return {"eq": bool(a == b), "ne": bool(a != b), "self": bool(a == a), "same_args": same_args,
                 "sym": bool(b == a)}
 
     def model_many(self, cases):
